@@ -80,6 +80,11 @@ CHECKS["C19"] = dict(level="model_checking", design="5 C19",
    note="Exhaustive over the states of the specification for MaxNow/SessionLen/MaxSteps = 2/1/5 (quick) or 4/2/8 (thorough). Clock ticks are emulated by re-encoding the issued session with an earlier expiration; GitHub is a stub transport; cookie cryptography is not examined. Refusing valid credentials is reported but is not a violation of the statement.",
    technique="TLA+ model checking (TLC) of the access rules + replay of every distinct specification state on the real rpc server and web handler")
 
+CHECKS["C13"] = dict(level="model_checking", design="5 C13",
+   text="spec/Report.tla models the leader's fan-out of a cluster query (one step per critical section of the result loop: dispatch to a partition's single-use handler, row, retriable failure, partition result, the leader's time-out, finish) under a behaviour per partition (answers, no handler, fails after k rows, stalls after k rows, fails retriably) and a consumer that may stop early; TLC checks NeverSilentlyIncomplete and ReportExact for every interleaving (P = 2, 3) and exports, per fault vector, the reports the design allows. The vectors are replayed on an in-process cluster of the real code with harness-owned query handlers: a result with fewer rows than the fault-free run and neither an error nor missing-partition statistics is a violation, and the observed report must be one the specification allows (binding). The standalone part runs a query catalogue under deadlines already expired or passing while row k is handled, under the memory cap, and through the HTTP API with a 1 ns time-out / small response limits (status, body and the cached entry served to a second request).",
+   note="Ground truth = the same query on the same data without the fault. An HTTP 200 is accepted as 'told' only when its statistics list the missing partition (cluster faults); for deadlines, size limits and the memory cap a 200 with fewer rows is a violation. The gRPC transport between leader and follower is not exercised here.",
+   technique="TLA+ model checking (TLC) of the query fan-out + replay of the specification's fault vectors on the real cluster code; fault enumeration for deadlines, memory cap and the HTTP API")
+
 NOT_YET = {}
 
 
